@@ -23,6 +23,32 @@ func (w *World) Abstract(b []byte) Term {
 	if t, ok := w.rev[string(b)]; ok {
 		return t
 	}
+	// Ideal signatures: a value has the origin (key, message) iff the real
+	// verifier accepts it for them.  Bytes that are a re-encoding of a known
+	// signature (e.g. ECDSA DER with trailing bytes) are that signature with
+	// another encoding number, not garbage.
+	if len(b) >= 16 {
+		n := len(w.sigs)
+		lo := 0
+		if n > 400 {
+			lo = n - 400
+		}
+		for i := n - 1; i >= lo; i-- {
+			c := w.sigs[i]
+			mb, err := w.Concrete(*c.M)
+			if err != nil {
+				continue
+			}
+			if ok, err := w.Keys[c.K].Pub.Verify(mb, b); err == nil && ok {
+				w.sigCtr++
+				t := Sig(c.K, *c.M, 100000+w.sigCtr)
+				w.Malleable[w.Keys[c.K].Typ]++
+				w.conc[t.Key()] = b
+				w.rev[string(b)] = t
+				return t
+			}
+		}
+	}
 	t := w.NewGarbage()
 	w.conc[t.Key()] = b
 	w.rev[string(b)] = t
